@@ -204,6 +204,7 @@ class Loop(Ev):
     def __init__(self, iter_text, coll, var, alts, node, func, stack, elem_cls=None):
         super().__init__(node, func, stack)
         self.iter_text, self.coll, self.var, self.alts, self.elem_cls = iter_text, coll, var, alts, elem_cls
+        self.self_obj = None
 
     def __repr__(self):
         return f"loop {self.iter_text} x{len(self.alts)} @{self.loc}"
@@ -695,6 +696,7 @@ class Interp:
                 s2.trace = tr
                 outs.append((s2, ex))
         lp = Loop(ast.unparse(s.iter), coll, var, alts, s, fr.func, fr.stack, self._elem_cls(et))
+        lp.self_obj = st.env.get("self")
         after = st
         after.trace.append(lp)
         self.havoc(after, names, attrs, fr)
